@@ -102,6 +102,10 @@ pub proof fn lemma_cnt_lt(m: Seq<bool>, n: int)
 }
 
 impl Mat {
+  // spec counterparts of len() / nrows() / ncols() (used for the facts about hoisted dimension locals, see vmat.dimension_facts)
+  pub open spec fn ln(&self) -> int { self.d@.len() as int }
+  pub open spec fn nr(&self) -> int { self.r as int }
+  pub open spec fn nc(&self) -> int { self.c as int }
   pub open spec fn wf(&self) -> bool { self.d@.len() == self.r * self.c }
   pub open spec fn at(&self, i: int, j: int) -> u64 { self.d@[cm(self.r as int, i, j)] }
   pub fn len(&self) -> (n: usize) ensures n == self.d@.len() { self.d.len() }
@@ -192,6 +196,8 @@ pub fn dec(x: usize) -> (o: Option<usize>)
 { if x > 0 { Some(x - 1) } else { None } }
 
 impl IVec {
+  pub open spec fn ln(&self) -> int { self.d@.len() as int }
+  pub open spec fn nr(&self) -> int { self.d@.len() as int }
   pub fn len(&self) -> (n: usize) ensures n == self.d@.len() { self.d.len() }
   pub fn nrows(&self) -> (n: usize) ensures n == self.d@.len() { self.d.len() }
   pub fn get1(&self, i: usize) -> (o: Option<usize>)
@@ -199,6 +205,8 @@ impl IVec {
   { if i < self.d.len() { Some(self.d[i]) } else { None } }
 }
 impl BVec {
+  pub open spec fn ln(&self) -> int { self.d@.len() as int }
+  pub open spec fn nr(&self) -> int { self.d@.len() as int }
   pub fn len(&self) -> (n: usize) ensures n == self.d@.len() { self.d.len() }
   pub fn nrows(&self) -> (n: usize) ensures n == self.d@.len() { self.d.len() }
   pub fn get1(&self, i: usize) -> (o: Option<bool>)
